@@ -103,6 +103,8 @@ def make_trace(tid, rng, nops=25, **opt):
         ext, cb = False, 9
         cs, esz, l2_real = 512, 8, 64
         nc = rng.randrange(8400, 9000)
+    if not opt.get("many") and cb == 9 and rng.random() < 0.4:
+        nc = l2_real * rng.randrange(1, 3) + 1     # the last cluster is the only one of its L2 table
     runs = opt.get("many") == "runs"
     if runs:  # long runs of each kind of cluster, 1 MiB clusters
         ext, cb = rng.random() < 0.3, 20
@@ -197,6 +199,8 @@ def make_trace(tid, rng, nops=25, **opt):
         diskprop.whole_disk_ops(rec, rng, size_b, cs)
         nops = 6
     record.random_ops(rec, rng, size_b, nops, unit=cs, big=(size_b + 4096) if runs else min(6 * cs + 4096, 2 << 20))
+    if opt.get("many") in ("mid", "big", True):
+        diskprop.twin_index_ops(rec, rng, size_b, cs, l2_real * cs)
     geo = b.geo(nfiles=2)
     timg = {"ext": ext, "datafile": datafile, "nc": nc, "s": S, "t": t, "h": h,
             "al_lo": [a & 0xFFFF for a in al], "al_hi": [a >> 16 for a in al],
